@@ -40,9 +40,10 @@ PID = "G12"
 PKG = "yv-g12"
 
 TIERS = {
-    "quick": dict(gen=["Gen_Functions_quick_a.cfg", "Gen_Functions_quick_b.cfg"], mc="MC_Functions_quick.cfg",
+    "quick": dict(gen=["Gen_Functions_quick.cfg"], mc="MC_Functions_quick.cfg", coverage=False,
                   api="Gen_FunctionSet_quick.cfg", nrandom=4000, timeout=600),
     "thorough": dict(gen=["Gen_Functions_thorough_a.cfg", "Gen_Functions_thorough_b.cfg"], mc="MC_Functions_thorough.cfg",
+                     coverage=True,
                      api="Gen_FunctionSet_thorough.cfg", nrandom=40000, timeout=2400),
 }
 
@@ -81,14 +82,16 @@ def _negative(variant):
 def _model(T):
     """Stage 1: MC_Functions (positive) and the negative configurations, side by side."""
     totals = {"states": 0, "transitions": 0}
-    with ThreadPoolExecutor(max_workers=5) as ex:
-        pos = ex.submit(vlib.tlc, "MC_Functions", T["mc"], workers=4, timeout=T["timeout"], coverage=True)
+    with ThreadPoolExecutor(max_workers=4) as ex:
+        pos = ex.submit(vlib.tlc, "MC_Functions", T["mc"], workers=4, timeout=T["timeout"], coverage=T["coverage"])
         negs = list(ex.map(_negative, sorted(NEGATIVE)))
         r = pos.result()
     vlib.tlc_must_pass(r, f"model checking {T['mc']}")
     totals["states"] += r.distinct
     totals["transitions"] += r.generated
-    acts = {k: v for k, v in r.coverage.items() if k.startswith("StepOf") or k.startswith("A")}
+    acts = {k: v for k, v in r.coverage.items() if k.startswith("A")}
+    if T["coverage"] and (len(acts) != 13 or min(acts.values()) == 0):
+        raise vlib.ToolError(f"not every action of the model is exercised: {acts}")
     vlib.log(f"[mc] {T['mc']}: {r.distinct} states, 3 invariants + 8 action properties hold ({r.wall:.1f}s)")
     refuted = {}
     for variant, prop, rn in negs:
